@@ -20,6 +20,7 @@ MODULES = {
     "C10": "harness.intervals",
     "C11": "harness.rewrite",
     "C14": "harness.dwarf",
+    "C17": "harness.calls",
     "C18": "harness.retarget",
     "C19": "harness.delsym",
     "C20": "harness.containers",
